@@ -320,7 +320,10 @@ func (i *Index) enginePrefix() []byte {
 	return i.table.catalog.enginePrefix
 }
 
-func (i *Index) coversOrdCols(ordExps []*OrdExp, rangesByColID map[uint32]*typedValueRange) bool {
+// coversOrdCols reports whether scanning the index provides the order of ordExps.
+// tableAlias is the alias the table is scanned under: an expression over a column
+// of another (joined) table is never provided by this index, whatever its name.
+func (i *Index) coversOrdCols(ordExps []*OrdExp, rangesByColID map[uint32]*typedValueRange, tableAlias string) bool {
 	if !ordExpsHaveSameDirection(ordExps) {
 		return false
 	}
@@ -331,7 +334,7 @@ func (i *Index) coversOrdCols(ordExps []*OrdExp, rangesByColID map[uint32]*typed
 			return false
 		}
 	}
-	return i.hasPrefix(i.cols, ordExps) || i.sortableUsing(ordExps, rangesByColID)
+	return i.hasPrefix(i.cols, ordExps, tableAlias) || i.sortableUsing(ordExps, rangesByColID, tableAlias)
 }
 
 // countEqualityCoveredCols returns the number of consecutive leading columns
@@ -371,7 +374,7 @@ func ordExpsHaveSameDirection(exps []*OrdExp) bool {
 	return true
 }
 
-func (i *Index) hasPrefix(columns []*Column, ordExps []*OrdExp) bool {
+func (i *Index) hasPrefix(columns []*Column, ordExps []*OrdExp, tableAlias string) bool {
 	if len(ordExps) > len(columns) {
 		return false
 	}
@@ -382,8 +385,8 @@ func (i *Index) hasPrefix(columns []*Column, ordExps []*OrdExp) bool {
 			return false
 		}
 
-		aggFn, _, colName := sel.resolve(i.table.Name())
-		if len(aggFn) > 0 {
+		aggFn, table, colName := sel.resolve(tableAlias)
+		if len(aggFn) > 0 || table != tableAlias {
 			return false
 		}
 
@@ -395,7 +398,7 @@ func (i *Index) hasPrefix(columns []*Column, ordExps []*OrdExp) bool {
 	return true
 }
 
-func (i *Index) sortableUsing(columns []*OrdExp, rangesByColID map[uint32]*typedValueRange) bool {
+func (i *Index) sortableUsing(columns []*OrdExp, rangesByColID map[uint32]*typedValueRange, tableAlias string) bool {
 	// all columns before colID must be fixedValues otherwise the index can not be used
 	sel := columns[0].AsSelector()
 	if sel == nil {
@@ -414,7 +417,7 @@ func (i *Index) sortableUsing(columns []*OrdExp, rangesByColID map[uint32]*typed
 
 	for j, col := range i.cols {
 		if col.id == firstCol.id {
-			return i.hasPrefix(i.cols[j:], columns)
+			return i.hasPrefix(i.cols[j:], columns, tableAlias)
 		}
 
 		colRange, ok := rangesByColID[col.id]
